@@ -21,13 +21,27 @@ func (pt *pathTracker) stillOnUnfollowedRemotePath(newPath datamodel.Path) bool 
 	if pt.lastUnfollowedRemotePath.Len() == 0 {
 		return false
 	}
-	// are we still on it?
-	if newPath.Len() <= pt.lastUnfollowedRemotePath.Len() {
+	// are we still on it? (only paths below the unfollowed link are)
+	if !isBelow(newPath, pt.lastUnfollowedRemotePath) {
 		// if not, reset to no known missing remote path
 		pt.lastUnfollowedRemotePath = datamodel.NewPath(nil)
 		return false
 	}
 	// otherwise we're on a missing path
+	return true
+}
+
+// isBelow reports whether path lies strictly below ancestor
+func isBelow(path datamodel.Path, ancestor datamodel.Path) bool {
+	segments, ancestorSegments := path.Segments(), ancestor.Segments()
+	if len(segments) <= len(ancestorSegments) {
+		return false
+	}
+	for i, segment := range ancestorSegments {
+		if !segments[i].Equals(segment) {
+			return false
+		}
+	}
 	return true
 }
 
